@@ -197,9 +197,7 @@ func HangVerdict(dump string) *Result {
 	if w == nil || w.S == nil || prop == "" {
 		return nil
 	}
-	if !w.S.blockedOffGate() {
-		return nil
-	}
+	offGate := w.S.blockedOffGate()
 	nothingEnabled := len(w.S.Enabled()) == 0
 	// addresses of the short-section mutexes of every live instance
 	short := map[string]bool{}
@@ -261,6 +259,9 @@ func HangVerdict(dump string) *Result {
 			involved = append(involved, "[writer lock of the store never released by its previous holder]\n"+firstLines(g, 14))
 			break
 		}
+	}
+	if !leaked && !offGate {
+		return nil
 	}
 	if !mutexWait || !(nothingEnabled || waitsShort || leaked) {
 		return nil
